@@ -8,3 +8,6 @@ pub mod pl;
 pub mod plmon;
 pub mod pleng;
 pub mod sched;
+pub mod sim;
+pub mod simrun;
+pub mod memeeprom;
